@@ -25,8 +25,8 @@ M20 = (1 << 20) - 1
 QUICK_LS = list(range(0, 13)) + [16, 23, 32, 47]
 FULL_GRID_MAX = 1100      # ship the whole grid when it has at most this many points
 SUB_POINTS = 512          # else this many seeded points
-SINGLE_POINTS = 48
-NPROBE = 8                # reference points of dense vectors
+SINGLE_POINTS = 32
+NPROBE = 6                # reference points of dense vectors (4 above L = 16)
 
 MC_CFG = """SPECIFICATION Spec
 CHECK_DEADLOCK FALSE
@@ -257,7 +257,7 @@ def drive(recipe):
     t["chan"] = chan
     if gp:
         if dense:
-            ri = sorted(rng.sample(range(len(gp)), min(NPROBE, len(gp))))
+            ri = sorted(rng.sample(range(len(gp)), min(NPROBE if L <= 16 else 4, len(gp))))
         else:
             ri = list(range(len(gp)))
         t["ri"] = [r + 1 for r in ri]
